@@ -419,7 +419,11 @@ pub fn check_trace(s: &Script, tr: &Trace, rep: &mut Report) -> Outcome {
                     m_pushed_keys += keys.len() as u64;
                     // the batches are exactly the look-up stream, cut every buffer_items keys
                     let n = keys.len().min(ring_pending.len());
-                    if keys.len() != capa || ring_pending.len() < keys.len() || ring_pending[..n] != keys[..n] {
+                    // the batch is the next `capa` look-ups; their order inside the batch is not part of the statement
+                    let (mut want, mut got) = (ring_pending[..n].to_vec(), keys[..n].to_vec());
+                    want.sort_unstable();
+                    got.sort_unstable();
+                    if keys.len() != capa || ring_pending.len() < keys.len() || want != got {
                         fail!("C15", "batch/not-the-lookup-stream", "flushed batch {keys:?} is not the next {capa} look-ups {:?}", &ring_pending[..n.min(8)]);
                         ring_pending.clear();
                     } else {
